@@ -92,6 +92,9 @@ M = [
   '\tkeyOrder := order.AnyKeyOrder\n\tif o.Deterministic {\n\t\tkeyOrder = order.GenericKeyOrder\n\t}', '\tkeyOrder := order.AnyKeyOrder\n\tif o.Deterministic && keyf.Kind() != protoreflect.StringKind {\n\t\tkeyOrder = order.GenericKeyOrder\n\t}'),
  ('c05-bool-keys-unsorted', 'internal/impl/codec_map.go',
   '\t\tcase reflect.Bool:\n\t\t\treturn !keys[i].Bool() && keys[j].Bool()\n', '\t\tcase reflect.Bool:\n\t\t\treturn false\n'),
+ # ---- C40
+ ('c40-imports-unsorted', 'compiler/protogen/protogen.go',
+  '\tsort.Slice(importPaths, func(i, j int) bool {', '\tsort.Slice(importPaths[:0], func(i, j int) bool {'),
  # ---- C27
  ('c27-eof-inside-size', 'encoding/protodelim/protodelim.go',
   'if err == io.EOF && i != 0 {', 'if err == io.EOF && i < 0 {'),
